@@ -390,10 +390,19 @@ theorem fuel_linear : ∀ e : E, e.fuel ≤ 9 * e.ntoks
 /-- the initial parser state sees the whole token list -/
 theorem seesT_init (toks : List Tk) :
     SeesT (initState (toks.map (fun t => SEv.tok t.1 t.2) ++ [.eof])) toks := by
-  refine ⟨⟨[], toks, false, by simp [initState], rfl, by simp, by simp, ?_, by intro _; rfl⟩, by simp [initState], ?_⟩
-  · intro sc hsc e he
-    simp only [initState, List.mem_singleton] at hsc
-    subst hsc; simp at he
+  have hty : isTypeInScopes [[]] = fun _ => false := by
+    funext n; simp [isTypeInScopes, scopeLookup]
+  refine ⟨⟨[], toks, false, by simp [initState], rfl, ?_, by simp, ?_, by intro _; rfl⟩, by simp [initState], ?_⟩
+  · show toks = _ ++ toks.map (clsF (isTypeInScopes [[]]))
+    rw [hty]
+    have : (clsF fun _ => false) = id := by funext t; simp [clsF]
+    rw [this]; simp
+  · show Agrees (isTypeInScopes [[]]) [[]]
+    refine ⟨?_, [], [], rfl, ?_⟩
+    · intro sc hsc e he
+      simp only [List.mem_singleton] at hsc
+      subst hsc; simp at he
+    · intro n hn; rw [hty] at hn; cases hn
   · intro j t hj; simp [initState] at hj
 
 /-! ## redundant parentheses change nothing but coordinates -/
